@@ -20,6 +20,12 @@ type Bias struct {
 	LargeReplicas   bool
 }
 
+// FindingGatewayDisableCanarySvc: Gateway API provider with disableGenerateCanaryService: true.
+const FindingGatewayDisableCanarySvc = "c05-gateway-disable-canary-service-deletes-user-rules"
+
+// GenExcluded counts generator-level exclusions (per process; drained by the check).
+var GenExcluded = map[string]int{}
+
 var AllKinds = []string{"cloneset/partition", "deployment/canary"}
 
 func intp(i int) *int { return &i }
@@ -52,6 +58,12 @@ func GenScenario(t *rapid.T, b Bias) Scenario {
 	s.UseRolloutID = rapid.Bool().Draw(t, "rollout-id")
 	if s.Provider != "" {
 		s.DisableCanarySvc = rapid.IntRange(0, 5).Draw(t, "disable-canary-svc") == 0
+		if s.DisableCanarySvc && s.Provider == "gateway" && KnownOpen[FindingGatewayDisableCanarySvc] {
+			// known finding: with canary Service name == stable Service name the Gateway provider's
+			// Finalise strips the "canary" backend, i.e. the stable one, and drops the user's rules
+			s.DisableCanarySvc = false
+			GenExcluded[FindingGatewayDisableCanarySvc]++
+		}
 	}
 	switch rapid.IntRange(0, 5).Draw(t, "failure-threshold") {
 	case 0:
